@@ -101,8 +101,9 @@ def run(ctx, br, profiles=None, prop=None, nats_profiles=None):
     return {
         "evaluations": len(reqs),
         "distinct_nontrivial": distinct,
-        "rule": "seeded random walks over the events the IMPLEMENTATION offers (1..%d concurrent callers on one adapter transport; arrivals: "
-                "responses in any order, duplicates, unknown op ids, late frames; lookup/deliver/unregister interleavings forced through "
+        "rule": "seeded random walks over the events the IMPLEMENTATION offers (1..%d concurrent callers on one adapter transport, some "
+                "with a foreign FContext implementation that is held inside its op id read while the others go on; arrivals: "
+                "responses in any order, duplicates, unknown op ids, late frames, frames with user headers that look like the op id header; lookup/deliver/unregister interleavings forced through "
                 "yield points; send ok / send failure; short timeouts) and the same on one NATS transport against an embedded server "
                 "(responses / duplicates / unknown ids / late frames published onto <inbox>.<token>, status 503 messages from the harness "
                 "and from the server itself (no responders), messages that must be discarded before dispatch, empty and oversize "
@@ -117,6 +118,9 @@ def run(ctx, br, profiles=None, prop=None, nats_profiles=None):
         "event_kind_histogram": {str(k): v for k, v in sorted(kinds.items())},
         "duplicate_arrivals": dup, "unknown_opid_arrivals": unknown, "late_arrivals": late, "dropped_duplicates": drops,
         "nats": nats,
+        "callers_held_in_a_foreign_fcontext_op_id_read": sum(r.get("slow_parked", 0) for r in resps),
+        "frames_dispatched_while_a_caller_was_held_there": sum(r.get("slow_arrivals", 0) for r in resps),
+        "frames_with_lookalike_opid_headers": "3 in 4 (a name ending in _opid / a value holding a whole _opid pair, before, after or around the real pair)",
         "samples": [{"schedule": reqs[0], "events": resps[0].get("events")[:25]},
                     {"schedule": reqs[-1], "events": resps[-1].get("events")[:25]}],
     }
